@@ -123,6 +123,9 @@ def _(): sub1('intel-ipsec-mb/lib/include/aes_cbc_dec_by8_sse.inc',"        ;; s
 @m('C02-a8','C02','gcm_avx_gen4: the counter-wrap test of the eight-block loop is off by one','with a counter low byte of 248 the cheap big-endian add of 8 wraps the byte without carry: wrong key stream for one in 256 IVs per eight blocks, gen4 family only')
 def _(): sub1('aes/gcm_avx_gen4.asm',"        cmp     r15d, 255-8\n        jg      %%_encrypt_by_8\n","        cmp     r15d, 256-8\n        jg      %%_encrypt_by_8\n")
 
+@m('C03-a4','C03','XTS-AES-128 decrypt (vaes): the previous tweak for the stolen block is not divided by alpha','for lengths of 8 blocks plus a tail the last full block is decrypted with the tweak of the block after it')
+def _(): sub1('aes/XTS_AES_128_dec_vaes.asm',"\tvpshrdq\t\txmm0, xmm9, xmm10, 1\n","\tvmovdqa\t\txmm0, xmm9\n")
+
 out='/verif/seeded'
 only=set(sys.argv[1:])
 import json
